@@ -6,7 +6,9 @@ HERE="$(cd "$(dirname "$0")/.." && pwd)"; cd "$HERE"
 mkdir -p /tmp/mutrun
 for s in $LIST; do
   id=${s%%-*}
-  tools/trymutant.sh seeded/$s/patch.diff $id > /tmp/mutrun/matrix-$s.txt 2>&1
+  # a change whose effect belongs to another property's subject names the checks expected to see it
+  with=$(python3 -c "import json,sys; print(' '.join(json.load(open('seeded/$s/meta.json')).get('detect_with', [])))")
+  tools/trymutant.sh seeded/$s/patch.diff ${with:-$id} > /tmp/mutrun/matrix-$s.txt 2>&1
   echo "$s rc=$?"
 done
 python3 - <<'PY'
